@@ -18,12 +18,18 @@ CHECKS = {
              text="Commands are made to fail (several exit codes, with/without touching outputs) and the containment, exit-status, logging and retry clauses are checked on the trace and on the re-loaded logs.", ref="4/C05", note=SIM_NOTE),
  "C06": dict(level="exploration", engine="SIM", technique="trace-invariant property testing (limits, once-only, retrospective no-idle, termination)",
              text="Concurrency and pool limits, at-most-once, no idle slot and termination are checked on traces of generated builds with pools, faults and schedules.", ref="4/C06", note=SIM_NOTE),
+ "C07": dict(level="fault_enumeration", engine="SIM+E2E", technique="fault-injection property testing: generated histories stopped at enumerated crash points, runner boundaries, interrupts (SIM) and by real signals / SIGKILL / hook crash points (real binary), recovery compared with the clean-build evaluator",
+             text="The last build of a generated history is stopped at one of 13 named points between persistence steps (1st-3rd hit), at any command-runner call, or by an interrupt with commands that did or did not modify their outputs; the real binary is additionally hit by SIGINT/SIGTERM/SIGHUP, SIGKILL of the tree and crashes inside -t recompact. The next invocation must start, succeed, reproduce the clean tree and converge; the interrupt contract (130, lock file, modified outputs removed, children gone) is checked.",
+             ref="4/C07", note=SIM_NOTE + " Crash points are the guarded NINJA_VERIF_POINT hooks; power loss is out of reach."),
  "C08": dict(level="fault_enumeration", engine="LOG", technique="stateful property testing (Hypothesis) of BuildLog sessions with every-offset truncation, oracle = reference fold over complete lines",
              text="Generated multi-session histories on a real .ninja_log; the file is cut at every byte offset (exhaustive for files up to 4 KiB) and torn tails are continued by later sessions; what ninja loads is compared with an independent fold over the complete lines of the same bytes; recompaction, restat and unsupported versions are checked clause by clause.",
              ref="4/C08", note="Trusted base: M-buildlog in verif/props/C08.py, the probe's op interpreter (cxx/probe_misc.h). Command hashes are ninja's own; lines >= 256 KiB may be dropped (documented)."),
  "C09": dict(level="fault_enumeration", engine="LOG", technique="stateful property testing of DepsLog sessions with every-offset truncation, garbage tails and structured damage, oracle = independent binary-format parser + recorded-deps model",
              text="Generated multi-session histories on a real .ninja_deps; every truncation offset (exhaustive up to 3000 bytes), random tails and structurally malformed records after a valid prefix, each continued by an appending session and a reload; deps loaded == fold of complete well-formed records == most recently recorded deps; file size after recovery == end of last good record.",
              ref="4/C09", note="Trusted base: M-depslog parser in verif/props/C09.py, the probe's op interpreter. Two genuine defects found by this check were repaired (fix: commits 33f8d0f, 9f3b7db)."),
+ "C18": dict(level="exploration", engine="SIM", technique="model-based property testing of the Cleaner on generated graphs, tree states and scopes, oracle = reference scope computation (both directions)",
+             text="After a generated history the tree is perturbed and one clean scope (all, -g, targets, rules, cleandead after statements were removed; each also with -n) runs through the real Cleaner on the virtual disk with the real logs; removed files must equal the existing files of the scope, and the following build must reproduce the clean tree.",
+             ref="4/C18", note=SIM_NOTE),
  "C10": dict(level="exploration", engine="SIM", technique="metamorphic testing: discovered dependencies vs the same dependencies declared as implicit inputs, same generated history on both",
              text="Each generated history runs twice in lockstep: on the graph whose commands report hidden reads through depfile/deps=gcc/deps=msvc (sources and generated files, canonical and -Iinc/.. style spellings) and on the variant with those reads written as implicit inputs; result, commands run and contents must agree per invocation. Differences that the counterfactual model attributes to known finding D1 are listed, not hidden.",
              ref="4/C10", note=SIM_NOTE),
@@ -50,8 +56,11 @@ CHECKS = {
              note="Trusted base: cxx/ref_canon.h (reference), ASan/UBSan. POSIX build only."),
 }
 ENGINES = [
- dict(name="SIM", path="cxx/probe_sim.h + verif/simrun.py", serves_properties=["C01", "C02", "C03", "C04", "C05", "C06", "C10", "C11", "C17"],
+ dict(name="SIM", path="cxx/probe_sim.h + verif/simrun.py", serves_properties=["C01", "C02", "C03", "C04", "C05", "C06", "C07", "C10", "C11", "C17", "C18"],
       kind_free_text="in-process build simulator: virtual disk with logical clock, scripted command runner owning the schedule, real log files; forked per request by the probe server"),
+ dict(name="E2E", path="verif/e2e.py, cxx/vtool.c", serves_properties=["C01", "C02", "C03", "C05", "C06", "C07"],
+      kind_free_text="the real ninja binary (built from the working tree, hooks compiled in but inert) in a scratch directory, commands are the vtool helper with the SIM's content function; jobserver fifo, signals, crash points via environment"),
+ dict(name="SIM+E2E", path="verif/props/C07.py", serves_properties=["C07"], kind_free_text="both engines"),
  dict(name="LOG", path="cxx/probe_misc.h (buildlog/depslog op interpreters) + verif/props/C08.py, C09.py", serves_properties=["C08", "C09"],
       kind_free_text="real BuildLog/DepsLog objects on real files driven by generated op lists inside the forked probe; files are cut from outside at every offset"),
  dict(name="manifest-diff", path="verif/mref.py, verif/props/C12.py, cxx/probe_misc.h (manifest)", serves_properties=["C12"], kind_free_text="reference evaluator vs ManifestParser graph dump"),
